@@ -206,6 +206,29 @@ Section CodecLemmas.
   Proof. reflexivity. Qed.
 End CodecLemmas.
 
+(* the save step: update_header rewrites the header from the affine the image has at save
+   time exactly when that affine is not allclose to the header's *)
+Lemma save_step_decision has close :
+  (update_decision has close = Rewrite <-> has = true /\ close = false)
+  /\ (update_decision has close = Keep <-> has = false \/ close = true).
+Proof. destruct has, close; cbn; repeat split; intros; try discriminate; intuition discriminate. Qed.
+
+Lemma save_step_analyze (V : Type) (store : V -> Z) qnum_of h shape a close :
+  analyze_update_header V store qnum_of h shape (Some a) close
+  = match update_decision true close with
+    | Keep => set_shape h shape
+    | Rewrite => analyze_affine2header V store qnum_of (set_shape h shape) a
+    end.
+Proof. destruct close; reflexivity. Qed.
+
+Lemma save_step_nifti codes aligned unknown (V : Type) (store : V -> Z) vone vmone qnum_of h shape a close :
+  update_header codes aligned unknown V store vone vmone qnum_of h shape (Some a) close
+  = match update_decision true close with
+    | Keep => Some (set_shape h shape)
+    | Rewrite => affine2header codes aligned unknown V store vone vmone qnum_of (set_shape h shape) a
+    end.
+Proof. destruct close; reflexivity. Qed.
+
 (* ------------------------------------------------------------------ bytes *)
 Lemma firstn_app_exact {A} (l r : list A) n : length l = n -> firstn n (l ++ r) = l.
 Proof. intros <-. rewrite firstn_app, Nat.sub_diag, firstn_all. cbn. apply app_nil_r. Qed.
